@@ -45,6 +45,49 @@ func checkC15(c *Ctx, r *Report) {
 	c15Step(c, r, rr, step)
 	c15Loop(c, r, rr, step)
 	c15Conn(c, r, c.fnMust("server", "*connection.handle"))
+	// R15.9: bytes once buffered are only consumed by the reassembly path: no method of the assembler
+	// type outside what ReceiveRead reaches calls a method of its bytes.Buffer (a side door such as
+	// an optional tracing hook that resets the buffer would drop a half-received request)
+	{
+		rrT := deref(rr.Signature.Recv().Type())
+		inPath := map[*ssa.Function]bool{}
+		for _, f := range reachableInModule(c, []*ssa.Function{rr}) {
+			inPath[f] = true
+		}
+		named, _ := rrT.(*types.Named)
+		n, bad := 0, 0
+		if named != nil {
+			for _, m := range methodsOf(c, "server", named.Obj().Name()) {
+				if inPath[m] {
+					continue
+				}
+				n++
+				for _, b := range m.Blocks {
+					for _, in := range b.Instrs {
+						ci, ok := in.(ssa.CallInstruction)
+						if !ok {
+							continue
+						}
+						sc := ci.Common().StaticCallee()
+						if sc == nil || sc.Signature.Recv() == nil || len(ci.Common().Args) == 0 {
+							continue
+						}
+						if nt, ok := deref(sc.Signature.Recv().Type()).(*types.Named); !ok || nt.Obj().Pkg() == nil || nt.Obj().Pkg().Path() != "bytes" || nt.Obj().Name() != "Buffer" {
+							continue
+						}
+						if fa, ok := ci.Common().Args[0].(*ssa.FieldAddr); ok && types.Identical(deref(fa.X.Type()), rrT) {
+							bad++
+							r.fail("R15.9", fnID(m), "the reassembly buffer is touched ("+sc.Name()+") by a method outside the path of ReceiveRead", c.pos(in.Pos()), "", "buffer-side-door:"+sc.Name())
+						}
+					}
+				}
+			}
+		}
+		r.instance("R15.9", 1)
+		if bad == 0 {
+			r.ok("R15.9", fnID(rr), fmt.Sprintf("no method of the assembler outside the reassembly path (%d examined) touches its buffer", n), c.pos(rr.Pos()), true)
+		}
+	}
 	// R15.8: a request the parser refuses is still answered: the assembler's unchecked type
 	// assertions on the classifier's / dispatcher's errors cannot fail (C16 R16.1); a panic there
 	// drops the reply and everything buffered behind it
